@@ -52,6 +52,14 @@ def static_asserts(g):
                 a = lf.expr(e)
                 chk("%s.fill('x')" % a, "array fill %s" % lf.name); chk("%s.assign_string(\"\")" % a, "array assign_string %s" % lf.name)
                 chk("%s[0] = 'x'" % a, "array element store %s" % lf.name)
+                # byte types that are const AND volatile are read-only as well: element references must stay const-qualified
+                for acc, what in (("%s[0] = 'x'", "operator[]"), ("%s.front() = 'x'", "front()"), ("%s.back() = 'x'", "back()"), ("*%s.data() = 'x'", "*data()"),
+                                  ("*%s.begin() = 'x'", "*begin()"), ("*%s.rbegin() = 'x'", "*rbegin()"), ("%s.raw()[0] = DV(typename decltype(%s.raw())::value_type)", "raw()[0]")):
+                    k3 = n[0]; n[0] += 1
+                    ex = acc % ((a, a) if acc.count("%s") == 2 else a)
+                    o.append("CAN(can_%s_%d, %s)" % (Mn, k3, ex))
+                    o.append('static_assert(!can_%s_%d<%s>::value && !can_%s_%d<%s::messages::%s<const volatile char>>::value, "store through %s of array %s must be rejected for const and for const volatile byte types");' % (
+                        Mn, k3, CV, Mn, k3, ns, Mn, what, lf.name))
         for gr in lv.node.groups:
             ge = "%s.%s()" % (e, gr.name)
             # group resize()/clear() are not SFINAE-constrained: a const view rejects them with a hard error when the body is instantiated,
@@ -61,6 +69,11 @@ def static_asserts(g):
             chk("sbepp::fill_group_header(%s, 1)" % ge, "fill_group_header %s" % gr.name)
         for dt in lv.node.data:
             de = "%s.%s()" % (e, dt.name)
+            for acc, what in (("%s[0] = DV(typename decltype(%s)::value_type)", "operator[]"), ("*%s.begin() = DV(typename decltype(%s)::value_type)", "*begin()"), ("*%s.data() = DV(typename decltype(%s)::value_type)", "*data()")):
+                k3 = n[0]; n[0] += 1
+                o.append("CAN(can_%s_%d, %s)" % (Mn, k3, acc % (de, de)))
+                o.append('static_assert(!can_%s_%d<%s>::value && !can_%s_%d<%s::messages::%s<const volatile char>>::value, "store through %s of data %s must be rejected for const and for const volatile byte types");' % (
+                    Mn, k3, CV, Mn, k3, ns, Mn, what, dt.name))
             for op, what in (("resize(1)", "resize"), ("push_back('x')", "push_back"), ("pop_back()", "pop_back"), ("clear()", "clear"), ("assign_string(\"\")", "assign_string"),
                              ("erase(%s.begin())" % de, "erase"), ("insert(%s.begin(), 'x')" % de, "insert"), ("assign(1, 'x')", "assign")):
                 chk("%s.%s" % (de, op), "data %s %s" % (dt.name, what))
